@@ -37,7 +37,8 @@ def run(ctx):
         "steps of publish / subscribe / leave; filters: none, one, 2-4 distinct, the same twice, right address on another chain + right chain "
         "with another address, upper-case hex, not hex, 31/33/0 bytes, an entry of unknown type, a bad address after a good one; VAAs: emitters "
         "from a pool of 4 (two sharing the chain, two sharing the address), an emitter nobody filters for, undecodable bytes (wrong version, "
-        "truncated, empty); leaving by context cancellation and by Send error; after every Publish a sentinel is pushed through every live "
+        "truncated, empty), a signed VAA with an EMPTY payload (Marshal output that Unmarshal rejects; 1 in 8); one scale sequence per run "
+        "that starts with 520-719 live subscriptions and three publishes; leaving by context cancellation and by Send error; after every Publish a sentinel is pushed through every live "
         "subscription so the per-subscriber counts are exact. isolation scenarios (3, run side by side, each on its own server): subscriber A's "
         "client stops reading after the first VAA (unfiltered / filtered A) or stops reading and later disconnects, while up to 6 VAAs are "
         "published one after the other; as soon as a Publish has not returned after 300 ms a new registration (C), the removal of another "
@@ -61,5 +62,6 @@ def run(ctx):
     ctx.assumptions += [
         "filter chain ids are within uint16 (vaa.ChainID(...) truncates the request's int32 enum: 65537 would match chain 1)",
         "delivery 'exactly once' is relative to distinct filters: the code sends one copy per matching filter (c20_copies_le_one)",
-        "an undecodable VAA is outside the statement; the code serves a map-order-dependent prefix of the unfiltered subscribers and returns an error",
+        "for subscribers WITH filters the Spec speaks only when vaa.Unmarshal yields an emitter; for subscribers without filters the clause "
+        "unfiltered-subscriber-not-served is claimed for every Marshal output (here: empty-payload VAAs, which Unmarshal rejects), not for arbitrary garbage",
     ]
